@@ -79,6 +79,8 @@ impl Report {
     pub fn distinct(&self, h: u64) { self.inner.lock().unwrap().distinct.insert(h); }
     pub fn count(&self, key: &str, n: u64) { *self.inner.lock().unwrap().counters.entry(key.to_string()).or_insert(0) += n; }
     pub fn set_insert(&self, key: &str, h: u64) { self.inner.lock().unwrap().sets.entry(key.to_string()).or_default().insert(h); }
+    /// true while fewer than `n` samples have been recorded
+    pub fn want_sample(&self) -> bool { self.inner.lock().unwrap().samples.len() < 4 }
     pub fn sample(&self, s: J) {
         let mut i = self.inner.lock().unwrap();
         if i.samples.len() < 8 { i.samples.push(s); }
